@@ -4,6 +4,8 @@ package barrier
 // injection. Every model is an assumption of the claims that use it.
 //
 //vx:redirect (*github.com/openbao/openbao/v2/internal/vault/barrier.AESGCMBarrier).aeadFromKey vxAEADFromKey
+//vx:assume AES-GCM is ideal (IND$-CPA + INT-CTXT): Seal yields fresh arbitrary bytes distinct from every earlier ciphertext; Open succeeds only on bytes Seal produced under the same key bytes and additional data
+//vx:assume json (de)serialisation of keyring / key records is a box; physical storage is an association list with optional crash point (later writes lost) and fault point (one failing call)
 //vx:redirect encoding/json.Marshal vxJSONMarshal
 //vx:redirect github.com/openbao/openbao/sdk/v2/helper/jsonutil.DecodeJSON vxDecodeJSON
 //vx:redirect crypto/rand.Read vxRandRead
